@@ -429,7 +429,14 @@ func genQueryCase(t *rapid.T, modes []string) queryCase {
 	}
 	bounds, _ := scanQuery(src)
 	c := queryCase{ExpStart: -1}
-	switch rapid.SampledFrom([]string{"illegal", "illegal", "illegal", "misplaced", "misplaced", "truncate", "truncate", "delete", "escape", "interp", "illformed"}).Draw(t, "qfault") {
+	switch rapid.SampledFrom([]string{"illegal", "illegal", "illegal", "misplaced", "misplaced", "truncate", "truncate", "delete", "escape", "interp", "illformed", "colons"}).Draw(t, "qfault") {
+	case "colons":
+		at := bounds[biasedIndex(t, "bound", len(bounds))]
+		cc, verdict := colonCase(src, at, rapid.SampledFrom(colonFrags).Draw(t, "frag"))
+		c = cc
+		if verdict != "" { // no expectation: the Token law alone is judged
+			c.ExpStart = -1
+		}
 	case "illformed":
 		at := bounds[biasedIndex(t, "bound", len(bounds))]
 		seq := rapid.SampledFrom(illFormed).Draw(t, "bytes")
@@ -545,7 +552,7 @@ func replayCase(sub string, raw json.RawMessage) string {
 			return m
 		}
 		return checkYAML(c)
-	case "query-lib", "query-cli", "query-exh", "query-illformed":
+	case "query-lib", "query-cli", "query-exh", "query-illformed", "query-colons":
 		var c queryCase
 		c.ExpStart = -1
 		if m := un(&c); m != "" {
@@ -855,6 +862,60 @@ func TestC17(t *testing.T) {
 		}
 	}
 	rec.Exhaustive("query: every truncation, 16 always-illegal lexemes and 12 ill-formed UTF-8 sequences at every lexeme boundary of 3 multi-line programs x LF/CRLF/CR (library; every 7th also through the command)", complete)
+
+	// colons after variables and identifiers at every lexeme boundary of the
+	// fixed programs: library (Token law, same verdict and token as the
+	// blank-separated spelling), every 5th also through the command
+	complete = true
+	for qi, q := range fixedQueries {
+		for _, eol := range eols {
+			src := withEOL(q, eol)
+			bounds, _ := scanQuery(src)
+			for bi, at := range bounds {
+				for fi, f := range colonFrags {
+					idx++
+					if !rec.Mine(idx) || tooMany() {
+						continue
+					}
+					c, verdict := colonCase(src, at, f)
+					if verdict == "skip" {
+						rec.Discard("query/colons-no-expectation")
+						continue
+					}
+					rec.Eval()
+					if verdict == "valid" {
+						rec.Class("query/colons/accepted-like-the-spaced-spelling")
+						if r := refParse(c.Src); !r.valid {
+							complete = false
+							c.Mode = "lib"
+							rec.Direct("query-colons", c, "rejected (%s at offset %d) although the same tokens separated by blanks are accepted", r.msg, r.offset)
+						}
+						continue
+					}
+					modes := []string{"lib"}
+					if (bi+fi)%5 == 0 || rec.Thorough() {
+						modes = append(modes, []string{"arg", "file"}[(bi+fi)/5%2])
+					}
+					for _, mode := range modes {
+						c.Mode = mode
+						if mode != "lib" {
+							rec.Eval()
+						}
+						if refParse(c.Src).valid {
+							complete = false
+							rec.Direct("query-colons", c, "accepted although the same tokens separated by blanks are rejected at byte %d (%q)", c.ExpStart, c.ExpToken)
+							break
+						}
+						if m := judgeQuery(c, noteQuery(fmt.Sprintf("qcolon/%d/%s/%d/%d/%s", qi, eol, bi, fi, mode), c)); m != "" {
+							complete = false
+							rec.Direct("query-colons", c, "%s", m)
+						}
+					}
+				}
+			}
+		}
+	}
+	rec.Exhaustive(fmt.Sprintf("query: %d fragments with colons after variables / identifiers at every lexeme boundary of 3 multi-line programs x LF/CRLF/CR, against the blank-separated spelling", len(colonFrags)), complete)
 
 	// ill-formed UTF-8 where a token is expected: 12 sequences x 12 contexts
 	// (0..3 ASCII tokens, multi-byte characters and ill-formed bytes in
